@@ -107,6 +107,8 @@ package tacquito
 //@   ensures[C02] (err == nil) == (valid.AuthenStart(*a) && fits.AuthenStart(*a))
 //@   ensures[C01] err == nil ==> wire.AuthenStart(*a, res)
 //@   ensures err != nil ==> res == nil
+//@   ensures fresh(res)
+//@   ensures[C06] err == nil ==> res != nil && len(res) <= 4294967295
 
 //@ func (a *AuthenStart) UnmarshalBinary(data []byte) (err error)
 //@   requires a != nil
@@ -128,6 +130,8 @@ package tacquito
 //@   ensures[C02] (err == nil) == (valid.AuthenReply(*a) && fits.AuthenReply(*a))
 //@   ensures[C01] err == nil ==> wire.AuthenReply(*a, res)
 //@   ensures err != nil ==> res == nil
+//@   ensures fresh(res)
+//@   ensures[C06] err == nil ==> res != nil && len(res) <= 4294967295
 
 //@ func (a *AuthenReply) UnmarshalBinary(data []byte) (err error)
 //@   requires a != nil
@@ -149,6 +153,8 @@ package tacquito
 //@   ensures[C02] (err == nil) == (valid.AuthenContinue(*a) && fits.AuthenContinue(*a))
 //@   ensures[C01] err == nil ==> wire.AuthenContinue(*a, res)
 //@   ensures err != nil ==> res == nil
+//@   ensures fresh(res)
+//@   ensures[C06] err == nil ==> res != nil && len(res) <= 4294967295
 
 //@ func (a *AuthenContinue) UnmarshalBinary(data []byte) (err error)
 //@   requires a != nil
@@ -174,6 +180,8 @@ package tacquito
 //@   ensures[C02] (err == nil) == (valid.AcctReply(*a) && fits.AcctReply(*a))
 //@   ensures[C01] err == nil ==> wire.AcctReply(*a, res)
 //@   ensures err != nil ==> res == nil
+//@   ensures fresh(res)
+//@   ensures[C06] err == nil ==> res != nil && len(res) <= 4294967295
 
 //@ func (a *AcctReply) UnmarshalBinary(data []byte) (err error)
 //@   requires a != nil
@@ -204,6 +212,11 @@ package tacquito
 //@   ensures[C04] err == nil ==> p.Header != nil && valid.Header(*p.Header)
 //@   ensures[C04] err == nil ==> len(p.Body) == p.Header.Length && within(p.Body, v[12:])
 //@   ensures[C04] len(v) < 12 ==> err != nil
+//@   ensures[C01,C04,C05] err == nil ==> p.Body == v[12 : 12 + p.Header.Length]
+//@   ensures[C01,C04,C05] err == nil ==> p.Header.Version.MajorVersion == v[0] div 16 && p.Header.Version.MinorVersion == v[0] mod 16
+//@        && p.Header.Type == v[1] && p.Header.SeqNo == v[2] && p.Header.SessionID == u32at(v, 4) && p.Header.Length == u32at(v, 8)
+//@        && p.Header.Flags == (v[2] == 2 ? v[3] - (v[3] div 4) mod 2 * 4 + 4 : v[3])
+//@   ensures[C04] err == nil ==> fresh(p.Header)
 //@   also
 //@   ghost h Header
 //@   ghost body []byte
@@ -235,11 +248,16 @@ package tacquito
 //@   ensures[C02] (err == nil) == (valid.AuthorRequest(*a) && fits.AuthorRequest(*a))
 //@   ensures[C01] err == nil ==> wire.AuthorRequest(*a, res)
 //@   ensures err != nil ==> res == nil
+//@   ensures fresh(res)
+//@   ensures[C06] err == nil ==> res != nil && len(res) <= 4294967295
+//@   loop 1 invariant fresh(buf) && buf != nil
 //@   loop 1 invariant -1 <= rangeindex && rangeindex < len(a.Args)
 //@   loop 1 invariant len(buf) == 8 + rangeindex + 1
 //@   loop 1 invariant buf[0] == a.Method && buf[1] == a.PrivLvl && buf[2] == a.Type && buf[3] == a.Service
 //@   loop 1 invariant buf[4] == len(a.User) mod 256 && buf[5] == len(a.Port) mod 256 && buf[6] == len(a.RemAddr) mod 256 && buf[7] == len(a.Args) mod 256
 //@   loop 1 invariant forall j int :: 0 <= j && j <= rangeindex ==> buf[8 + j] == len(a.Args[j]) mod 256
+//@   loop 2 invariant fresh(buf) && buf != nil
+//@   loop 2 invariant sumLen(a.Args, rangeindex + 1) <= 255 * (rangeindex + 1)
 //@   loop 2 invariant -1 <= rangeindex && rangeindex < len(a.Args)
 //@   loop 2 invariant len(buf) == 8 + len(a.Args) + len(a.User) + len(a.Port) + len(a.RemAddr) + sumLen(a.Args, rangeindex + 1)
 //@   loop 2 invariant buf[0] == a.Method && buf[1] == a.PrivLvl && buf[2] == a.Type && buf[3] == a.Service
@@ -301,12 +319,17 @@ package tacquito
 //@   ensures[C02] (err == nil) == (valid.AuthorReply(*a) && fits.AuthorReply(*a))
 //@   ensures[C01] err == nil ==> wire.AuthorReply(*a, res)
 //@   ensures err != nil ==> res == nil
+//@   ensures fresh(res)
+//@   ensures[C06] err == nil ==> res != nil && len(res) <= 4294967295
+//@   loop 1 invariant fresh(buf) && buf != nil
 //@   loop 1 invariant -1 <= rangeindex && rangeindex < len(a.Args)
 //@   loop 1 invariant len(buf) == 6 + rangeindex + 1
 //@   loop 1 invariant buf[0] == a.Status && buf[1] == len(a.Args) mod 256
 //@   loop 1 invariant buf[2] == (len(a.ServerMsg) div 256) mod 256 && buf[3] == len(a.ServerMsg) mod 256
 //@   loop 1 invariant buf[4] == (len(a.Data) div 256) mod 256 && buf[5] == len(a.Data) mod 256
 //@   loop 1 invariant forall j int :: 0 <= j && j <= rangeindex ==> buf[6 + j] == len(a.Args[j]) mod 256
+//@   loop 2 invariant fresh(buf) && buf != nil
+//@   loop 2 invariant sumLen(a.Args, rangeindex + 1) <= 255 * (rangeindex + 1)
 //@   loop 2 invariant -1 <= rangeindex && rangeindex < len(a.Args)
 //@   loop 2 invariant len(buf) == 6 + len(a.Args) + len(a.ServerMsg) + len(a.Data) + sumLen(a.Args, rangeindex + 1)
 //@   loop 2 invariant buf[0] == a.Status && buf[1] == len(a.Args) mod 256
@@ -371,11 +394,16 @@ package tacquito
 //@   ensures[C02] (err == nil) == (valid.AcctRequest(*a) && fits.AcctRequest(*a))
 //@   ensures[C01] err == nil ==> wire.AcctRequest(*a, res)
 //@   ensures err != nil ==> res == nil
+//@   ensures fresh(res)
+//@   ensures[C06] err == nil ==> res != nil && len(res) <= 4294967295
+//@   loop 1 invariant fresh(buf) && buf != nil
 //@   loop 1 invariant -1 <= rangeindex && rangeindex < len(a.Args)
 //@   loop 1 invariant len(buf) == 9 + rangeindex + 1
 //@   loop 1 invariant buf[0] == a.Flags && buf[1] == a.Method && buf[2] == a.PrivLvl && buf[3] == a.Type && buf[4] == a.Service
 //@   loop 1 invariant buf[5] == len(a.User) mod 256 && buf[6] == len(a.Port) mod 256 && buf[7] == len(a.RemAddr) mod 256 && buf[8] == len(a.Args) mod 256
 //@   loop 1 invariant forall j int :: 0 <= j && j <= rangeindex ==> buf[9 + j] == len(a.Args[j]) mod 256
+//@   loop 2 invariant fresh(buf) && buf != nil
+//@   loop 2 invariant sumLen(a.Args, rangeindex + 1) <= 255 * (rangeindex + 1)
 //@   loop 2 invariant -1 <= rangeindex && rangeindex < len(a.Args)
 //@   loop 2 invariant len(buf) == 9 + len(a.Args) + len(a.User) + len(a.Port) + len(a.RemAddr) + sumLen(a.Args, rangeindex + 1)
 //@   loop 2 invariant buf[0] == a.Flags && buf[1] == a.Method && buf[2] == a.PrivLvl && buf[3] == a.Type && buf[4] == a.Service
@@ -498,3 +526,23 @@ package tacquito
 //@   ensures[C06,C07] err == nil ==> ghost.nwrites == old(ghost.nwrites) + 1
 //@   loop 1 invariant -1 <= rangeindex && rangeindex < len(writers)
 //@   loop 1 invariant forall j int :: 0 <= j && j < len(r.writers) ==> r.writers[j] != nil
+
+//@ func (c *crypter) read() (res *Packet, err error)
+//@   requires c != nil && c.Conn != nil && c.Reader != nil && !c.proxy
+//@   modifies ghost.inPos, ghost.nwrites, ghost.written, ghost.md5acc
+//@   ensures[C05,C07] err == nil ==> res != nil && res.Header != nil && valid.Header(*res.Header)
+//@   ensures[C05] let p0 = old(ghost.inPos) in let L = instream(p0+8)*16777216 + instream(p0+9)*65536 + instream(p0+10)*256 + instream(p0+11) in
+//@        (err == nil ==> (L <= 65536 && ghost.inPos == p0 + 12 + L && len(res.Body) == L && res.Header.Length == L))
+//@   ensures[C04,C05] let p0 = old(ghost.inPos) in let L = instream(p0+8)*16777216 + instream(p0+9)*65536 + instream(p0+10)*256 + instream(p0+11) in
+//@        (L > 65536 ==> (err != nil && ghost.inPos <= p0 + 12))
+//@   ensures[C04,C05] alloc() <= 65548
+//@   ensures[C05] let p0 = old(ghost.inPos) in (err == nil ==>
+//@        (res.Header.Version.MajorVersion == instream(p0) div 16 && res.Header.Version.MinorVersion == instream(p0) mod 16
+//@         && res.Header.Type == instream(p0+1) && res.Header.SeqNo == instream(p0+2)
+//@         && res.Header.SessionID == instream(p0+4)*16777216 + instream(p0+5)*65536 + instream(p0+6)*256 + instream(p0+7)))
+//@   ensures[C03,C05] let p0 = old(ghost.inPos) in ((err == nil && res.Header.Flags mod 2 == 1) ==>
+//@        (forall i int :: {res.Body[i]} 0 <= i && i < len(res.Body) ==> res.Body[i] == instream(p0 + 12 + i)))
+//@   ensures[C03,C05] let p0 = old(ghost.inPos) in ((err == nil && res.Header.Flags mod 2 == 0) ==>
+//@        (forall i int :: {res.Body[i]} 0 <= i && i < len(res.Body) ==> res.Body[i] == xor8(instream(p0 + 12 + i), padAt(*res.Header, c.secret, i))))
+//@   ensures[C07,C19] err == nil ==> ghost.nwrites == old(ghost.nwrites)
+//@   ensures[C07,C19] ghost.nwrites == old(ghost.nwrites) || ghost.nwrites == old(ghost.nwrites) + 1
